@@ -839,10 +839,33 @@ func (f *Frugal) UnderlyingType(t *Type) *Type {
 		typedefIndex = parsed.typedefIndex
 	}
 	if typedef, ok := typedefIndex[t.ParamName()]; ok {
-		// Recursively call underlying type to handle typedef nesting.
-		return f.UnderlyingType(typedef.Type)
+		// Recursively call underlying type to handle typedef nesting. The
+		// target of a typedef declared in an include is written relative to
+		// that include.
+		return f.UnderlyingType(qualifyType(typedef.Type, include))
 	}
 	return t
+}
+
+// qualifyType returns t as it has to be written in a file which includes the
+// file declaring it under the given include name: user-defined names without
+// an include prefix get the prefix, also inside containers.
+func qualifyType(t *Type, include string) *Type {
+	if t == nil || include == "" {
+		return t
+	}
+	if t.IsContainer() {
+		return &Type{
+			Name:        t.Name,
+			KeyType:     qualifyType(t.KeyType, include),
+			ValueType:   qualifyType(t.ValueType, include),
+			Annotations: t.Annotations,
+		}
+	}
+	if t.IsPrimitive() || t.IncludeName() != "" {
+		return t
+	}
+	return &Type{Name: include + "." + t.Name, Annotations: t.Annotations}
 }
 
 // ConstantFromField returns a new Constant from the given Field and value.
